@@ -46,23 +46,31 @@ def ideal_solve(A, b):
     rows = []
     for i in range(n):
         s = as_sym(B[i, 0])
-        if not s.d.is_const():
-            raise NotImplementedError("rational right-hand side with a concrete matrix")
-        p = s.n.scale(1 / s.d.const_value())
-        rows.append(p)
+        if s.d.is_const():
+            p, d = s.n.scale(1 / s.d.const_value()), None
+        else:
+            p, d = s.n, s.d
+        rows.append((p, d))
         for m in p.t:
-            monos.setdefault(m, len(monos))
+            monos.setdefault((m, d), len(monos))
     if not monos:
-        monos[()] = 0
+        monos[((), None)] = 0
     Bm = [[Fraction(0)] * len(monos) for _ in range(n)]
-    for i, p in enumerate(rows):
+    for i, (p, d) in enumerate(rows):
         for m, cf in p.t.items():
-            Bm[i][monos[m]] = cf
-    Af = [[Fraction(float(v)) for v in A[i]] for i in range(n)]
+            Bm[i][monos[(m, d)]] = cf
+    Af = [[Fraction(float(v)) if not isinstance(v, Fraction) else v for v in A[i]] for i in range(n)]
     X = linsolve.solve_numeric(Af, Bm)
     out = np.empty(n, dtype=object)
+    dens = {}
+    for (m, d), k in monos.items():
+        dens.setdefault(d, []).append((m, k))
     for i in range(n):
-        out[i] = Sym(Poly({m: X[i][k] for m, k in monos.items() if X[i][k]}))
+        tot = Sym(Poly())
+        for d, lst in dens.items():
+            num = Poly({m: X[i][k] for m, k in lst if X[i][k]})
+            tot = tot + (Sym(num) if d is None else Sym.make(num, d))
+        out[i] = tot
     SOLVER_LOG.append((n, False, False))
     return out
 
